@@ -380,3 +380,23 @@ Check SrcTie3CryptoEx.src_gcm_tc16.
 Check SrcTie3CryptoEx.src_gcm_tc15.
 Check SrcTie3CryptoEx.src_gcm_dec_tc16.
 Check SrcTie3CryptoEx.src_gcm_unreachable_state_crashes.
+(* ====================================================================================
+   The archive HEADER, translated (work package blockT/B, gen/Src3h.v): what the TRANSLATED ArchiveHeader::dump
+   writes — its serialiser and size checker generated from the struct definitions — is FORMAT.md's header
+   (Format.ser_header); over the limit, the 7 bytes of magic and version are already in `dest`.
+   ==================================================================================== *)
+From MLA Require Archive SrcTie3Header.
+From MLAGen Require Src3h.
+
+Theorem C06_tie_header_dump :
+  forall (h : header) (dest : bytes),
+  Src3h.ArchiveHeader_dump Src3h.MLA_FORMAT_VERSION h dest =
+  if Src3h.BINCODE_MAX_DESERIALIZE <? Archive.config_size h
+  then (dest ++ MAGIC ++ le32 VERSION, Err EDeser)
+  else (dest ++ ser_header h, Ok tt).
+Proof. exact SrcTie3Header.header_dump_src_gen. Qed.
+Print Assumptions C06_tie_header_dump.
+
+Theorem C06_tie_header_consts : Src3h.MLA_MAGIC = MAGIC /\ Src3h.MLA_FORMAT_VERSION = VERSION.
+Proof. exact (conj SrcTie3Header.magic_src SrcTie3Header.version_src). Qed.
+Check SrcTie3Header.header_src_examples.
